@@ -190,7 +190,29 @@ pub(crate) fn m_display_none() {
     assert!(out2.contains("hida") && out2.contains("hidb") && out2.contains("hidc"));
 }
 
+/// CSS is case-insensitive in property names, keywords and element selectors (public API).
+pub(crate) fn m_css_case() {
+    let _which: u8 = kani::any();
+    let lower = "<style>div.x { display: none; } p { display: none; }</style><div class=\"x\">hida</div><p>hidb</p><span>vis</span>";
+    let upper = "<style>DIV.x { DISPLAY: None; } P { Display: NONE; }</style><div class=\"x\">hida</div><p>hidb</p><span>vis</span>";
+    let a = crate::config::plain().use_doc_css().string_from_read(lower.as_bytes(), 60).expect("renders");
+    let b = crate::config::plain().use_doc_css().string_from_read(upper.as_bytes(), 60).expect("renders");
+    assert!(a.contains("vis") && !a.contains("hida") && !a.contains("hidb"), "lower-case sheet: {:?}", a);
+    assert!(a == b, "upper-case spelling changes the result: {:?} vs {:?}", a, b);
+}
+
+/// The final semicolon of a block is optional: `p{display:none}` hides, and the following rule survives (public API).
+pub(crate) fn m_css_final_semicolon() {
+    let _which: u8 = kani::any();
+    let with = "<style>p{display:none;} div.x{display:none;}</style><p>hida</p><div class=\"x\">hidb</div><span>vis</span>";
+    let without = "<style>p{display:none} div.x{display:none}</style><p>hida</p><div class=\"x\">hidb</div><span>vis</span>";
+    let a = crate::config::plain().use_doc_css().string_from_read(with.as_bytes(), 60).expect("renders");
+    let b = crate::config::plain().use_doc_css().string_from_read(without.as_bytes(), 60).expect("renders");
+    assert!(a.contains("vis") && !a.contains("hida") && !a.contains("hidb"), "sheet with final semicolons: {:?}", a);
+    assert!(a == b, "dropping the final semicolon changes the result: {:?} vs {:?}", a, b);
+}
+
 crate::verif_common::registry! {
-    m_display_none, m_descendant_self, m_css_progress, m_nth_parse, m_nth_child,
+    m_css_final_semicolon, m_css_case, m_display_none, m_descendant_self, m_css_progress, m_nth_parse, m_nth_child,
     s3_selector_specificity,
 }
